@@ -116,12 +116,20 @@ func VerifC12_SyncFaults() {
 	// (which child write sits at a given position depends on map iteration order:
 	// nothing order-dependent is observed for the engine/native cross-check)
 	rt.Observe("requeued+forgot", requeued+forgot)
+	// whether position 1/2 is the update of a or the create of c depends on Go's
+	// map iteration order: cover markers (compared between executor and native
+	// run) are only set where the request at the position does not depend on it
+	orderDependent := hit.Resource == "configmaps" && hit.Verb != "delete"
 	if benign {
-		rt.Cover("benign-fault-tolerated")
+		if !orderDependent {
+			rt.Cover("benign-fault-tolerated")
+		}
 		rt.Assert(requeued == 0, "benign/"+hit.Verb+"-"+hit.Resource+"/reported-as-error")
 		rt.Assert(forgot == 1, "benign/not-forgotten")
 	} else {
-		rt.Cover("fault-requeued")
+		if !orderDependent {
+			rt.Cover("fault-requeued")
+		}
 		rt.Assert(requeued == 1, "non-benign/"+hit.Verb+"-"+hit.Resource+"/not-requeued-with-backoff")
 		rt.Assert(forgot == 0, "non-benign/forgotten")
 	}
